@@ -172,6 +172,26 @@ def r3(ck, F):
         ck.ok("C03.R3", "Inner constructed only by Inner::new / Inner::clone")
     else:
         ck.bad("C03.R3", "Inner constructed only by Inner::new / Inner::clone", str(sorted(makers)), "Inner aggregates in %s" % sorted(makers))
+    # ... and a counted reference (an `Inner`) is only ever created *for a Span handle*, whose Drop gives it back: who may
+    # clone an Inner (also as Option<Inner>) or call Inner::new
+    cloners, newers = set(), set()
+    for b in F.body_list:
+        if b.crate not in HANDLE_CRATES:
+            continue
+        for bb, t in b.calls():
+            c = t["callee"]
+            if c.get("method") in ("clone", "clone_from", "cloned") and (SP + "Inner") in (str(c.get("self_ty")) + " " + " ".join(c.get("targs", [])) + " " + str(c.get("full"))):
+                cloners.add(b.root or b.path)
+            if c.get("path") == SP + "Inner::new":
+                newers.add(b.root or b.path)
+    want_c = {"<%sSpan as core::clone::Clone>::clone" % SP}
+    want_n = {SP + "Span::make_with", SP + "Span::current"}
+    if cloners == want_c and newers == want_n:
+        ck.ok("C03.R3", "an Inner is cloned only by Span::clone and created only by Span::make_with / Span::current")
+    else:
+        ck.bad("C03.R3", "an Inner is cloned only by Span::clone and created only by Span::make_with / Span::current", str(sorted((cloners ^ want_c) | (newers ^ want_n))),
+               "Inner::clone sends clone_span to the collector but only Drop for Span sends the matching try_close: cloning it anywhere else (%s) leaks a reference; "
+               "Inner::new callers: %s" % (sorted(cloners - want_c), sorted(newers)))
     # Inner::clone: id = clone_span result on self.collector, collector = clone of self.collector
     ic = F.body("<%sInner as core::clone::Clone>::clone" % SP)
     if ck.anchor("C03.R3", "Inner::clone", ic):
